@@ -280,6 +280,7 @@ structure HState where
 
 def roundStep (st : HState) (c : Case) (impl : String) : Option HState × Verdict :=
   if !hdrConsistent c then (some st, { model := "model-header-mismatch" }) else
+  if !c.m.wf then (some st, { model := "bad-op" }) else   -- outside the domain of `monitor_accepts_model`
   let (h', r) := st.h.authorize { serverUrl := c.m.cfg.serverUrl, inp := c.m.inp, world := c.m.tabs.world }
   let modelText := showResult r h'.served
   -- run-time self-check of the string layer: the model's text parses back to the typed observation the
